@@ -250,6 +250,21 @@ func init() {
 		}})
 }
 
+func init() {
+	reg(&PropSpec{ID: "C09", Title: "Stream ids: unique while in flight, bounded, recycled, refused when exhausted (sequential mechanism)", DesignRef: "DESIGN.md §11 C09",
+		Groups: []Group{
+			{Funcs: `^client\.newInFlightRequestsHandler$|^\(\*client\.inFlightRequestsHandler\)\.(onOutgoingFrameEnqueued|onIncomingFrameReceived)$`, OnlyCt: true, AbstractConc: true,
+				Classes: []string{"post", "pre", "inv-init", "inv-step", "auto-inv-init", "auto-inv-step", "auto-decreases", "decreases", "cover", "panic", "alloc"}},
+		},
+		Assume: []string{
+			"SEQUENTIAL MECHANISM ONLY: the statements hold for any sequence of handler operations executed one after another (the representation invariant poolInv is assumed and re-established by each: an induction over histories); interleavings of concurrent senders with the responder, the RW lock's role, timeouts and close are NOT decided - go statements are ignored and sync primitives are no-ops",
+			"the pool of free ids (a buffered chan int16) is modelled as a bounded multiset: FIFO order is abstracted (every real behaviour is a behaviour of the model); a blocking operation that cannot proceed ends the path; atomic loads/stores are plain loads/stores",
+			"ASSUMED about the per-request object (newInFlightRequest, startTimeout, onFrameReceived, close): they touch only their own request (assumes-assigns) and newInFlightRequest returns a fresh request carrying the given id and flag",
+			"proved: the constructor fills the pool with exactly 1..N once each; an accepted request has an id in 1..N (automatic) or its own id (explicit) that no unanswered request uses, the id leaves the pool, nothing else changes; exhaustion and duplicate explicit ids are refused; a refused request leaves table and pool unchanged (this obligation failed on the original tree: the borrowed id leaked - fixed); the final frame of a response frees the entry and, when accepted without error, returns an automatically assigned id to the pool; non-final frames and unknown ids change nothing",
+			"NOT covered: that the release after the final frame cannot fail (needs the cardinality link len = sum of counts), the close() loop, N > 32767",
+		}})
+}
+
 var lemmaClasses = []string{"post", "pre", "cover", "frame", "inv-init", "inv-step", "unwind"}
 
 func init() {
